@@ -49,12 +49,12 @@ LineEnd(chars, i, L) ==
   ELSE LineEnd(chars, i + 1, L)
 
 Spaces(n) == [i \in 1..n |-> 32]
-(* Level 0 rendering of the location part: the expression with a caret line under column col of line L *)
+(* Level 0 rendering of the location part: the expression with a caret line ("^" under column col) placed directly
+   after line L of the expression (after its terminating newline if it has one, else after an added newline) *)
 Rendered(chars, L, col) ==
-  LET e == LineEnd(chars, 1, L)
-      head == SubSeq(chars, 1, e - 1)
-      needNl == e = Len(chars) + 1 /\ (chars = <<>> \/ chars[Len(chars)] # NL \/ TRUE)
-  IN IF e <= Len(chars) \/ (Len(chars) >= 1 /\ chars[Len(chars)] = NL /\ Cardinality({i \in 1..Len(chars) : chars[i] = NL}) = L + 1)
-     THEN head \o Spaces(col) \o <<94, NL>> \o SubSeq(chars, e, Len(chars))
-     ELSE chars \o <<NL>> \o Spaces(col) \o <<94, NL>>
+  LET nNl == Cardinality({i \in 1..Len(chars) : chars[i] = NL})
+      caret == Spaces(col) \o <<94, NL>>
+  IN IF nNl >= L + 1
+     THEN LET e == LineEnd(chars, 1, L) IN SubSeq(chars, 1, e - 1) \o caret \o SubSeq(chars, e, Len(chars))
+     ELSE chars \o <<NL>> \o caret
 =============================================================================
